@@ -14,6 +14,8 @@
  * NDJSON events, judged by TLC (spec/TraceConc.tla).
  *
  * usage: drv_conc <out> <clr 0|1> <maxruns> <scenario>...     scenario = nt:role,op:role,op[:role,op]
+ *        maxruns > 0: exhaustive enumeration (at most maxruns runs per scenario)
+ *        maxruns < 0: -maxruns randomly sampled schedules per scenario (seed from VERIF_SEED), no pruning
  *        roles: owner weak both none     ops: reset1 share wfrom lock wreset get1 uniq1 none
  */
 #define _GNU_SOURCE
@@ -237,6 +239,8 @@ static void oncrash(int s) { (void)s; siglongjmp(crashjmp, 1); }
 
 /* one run following `pre`, then the first enabled thread each time; returns 1 if it ran to the end */
 static long nruns, nevents, npruned, nhangs;
+static int random_mode; static unsigned long rs = 88172645463325252UL;
+static unsigned long rnd(void) { rs ^= rs << 13; rs ^= rs >> 7; rs ^= rs << 17; return rs; }
 static void run(const sched_t *pre, const char *scen)
 {
     int t, depth = 0, i;
@@ -261,7 +265,8 @@ static void run(const sched_t *pre, const char *scen)
             fprintf(out, "{\"e\":\"hang\"}\n"); nhangs++; goto out;        /* everybody left is spinning */
         }
         if (depth >= MAXDEPTH - 1) { fprintf(out, "{\"e\":\"hang\"}\n"); nhangs++; goto out; }
-        if (depth >= pre->len) {
+        if (random_mode) c = en[rnd() % (unsigned long)ne];
+        else if (depth >= pre->len) {
             /* beyond the prescribed prefix: a state seen before needs no second expansion */
             if (vis_test_set(state_key())) { npruned++; goto out; }
             for (i = 1; i < ne; i++) { sched_t s = cur_s; s.c[s.len++] = (unsigned char)en[i]; push(&s); }
@@ -290,7 +295,8 @@ int main(int argc, char **argv)
     if (argc < 5) { fprintf(stderr, "usage: drv_conc <out> <clr> <maxruns> <scenario>...\n"); return 64; }
     out = fopen(argv[1], "w"); if (!out) return 73;
     { static char obuf[1 << 20]; setvbuf(out, obuf, _IOFBF, sizeof obuf); }
-    HASCLR = atoi(argv[2]); maxruns = atol(argv[3]);
+    HASCLR = atoi(argv[2]); maxruns = atol(argv[3]); random_mode = maxruns < 0;
+    if (getenv("VERIF_SEED")) rs ^= strtoul(getenv("VERIF_SEED"), NULL, 10) * 0x9E3779B97F4A7C15UL;
     visited = __real_malloc(sizeof(unsigned long) * VSZ);
     for (t = 0; t < MAXT; t++) stk[t] = __real_malloc(STK);
     signal(SIGSEGV, oncrash); signal(SIGABRT, oncrash); signal(SIGBUS, oncrash);
@@ -309,8 +315,8 @@ int main(int argc, char **argv)
         }
         memset(visited, 0, sizeof(unsigned long) * VSZ); nvisited = 0; nstack = 0;
         { sched_t empty; empty.len = 0; push(&empty); }
-        while (nstack > 0 && nruns - runs0 < maxruns) {
-            sched_t s = stack[--nstack];
+        while ((random_mode || nstack > 0) && nruns - runs0 < (maxruns < 0 ? -maxruns : maxruns)) {
+            sched_t s; if (random_mode) s.len = 0; else s = stack[--nstack];
             if (sigsetjmp(crashjmp, 1) == 0) run(&s, argv[a]);
             else { fprintf(out, "\n{\"e\":\"crash\"}\n"); in_threads = 0; cur = -1; nruns++; }
         }
